@@ -1,3 +1,268 @@
-From Coq Require Import List Bool Arith Lia.
+(* C07/Proofs.v : lemmas about C07/Model.v (sets, dictionaries, light cone).
+   The fusion proofs are in C07/ProofsFuse.v. *)
+From Coq Require Import List Bool Arith Lia Sorted Permutation.
 From QV Require Import Base.Trace C07.Model.
 Import ListNotations.
+
+(* ---------------------------------------------------------------- sorted sets *)
+Lemma sinsert_In x a l : In x (sinsert a l) <-> x = a \/ In x l.
+Proof.
+  induction l as [|y l IH]; simpl.
+  - intuition.
+  - destruct (a <? y) eqn:E1; simpl.
+    + intuition.
+    + destruct (a =? y) eqn:E2; simpl.
+      * apply Nat.eqb_eq in E2. subst. intuition.
+      * rewrite IH. intuition.
+Qed.
+
+Lemma sunion_In x a b : In x (sunion a b) <-> In x a \/ In x b.
+Proof.
+  unfold sunion. revert a. induction b as [|y b IH]; intros a; simpl.
+  - intuition.
+  - rewrite IH, sinsert_In. intuition.
+Qed.
+
+Lemma sort_set_In x l : In x (sort_set l) <-> In x l.
+Proof. unfold sort_set. rewrite sunion_In. simpl. intuition. Qed.
+
+Lemma sinter_In x a b : In x (sinter a b) <-> In x a /\ In x b.
+Proof. unfold sinter. rewrite filter_In, memb_In. tauto. Qed.
+
+Lemma sdiff_In x a b : In x (sdiff a b) <-> In x a /\ ~ In x b.
+Proof.
+  unfold sdiff. rewrite filter_In, negb_true_iff, memb_false. tauto.
+Qed.
+
+Definition ssorted (l : list nat) : Prop := StronglySorted lt l.
+
+Lemma sinsert_sorted a l : ssorted l -> ssorted (sinsert a l).
+Proof.
+  unfold ssorted. induction l as [|y l IH]; intros H; simpl.
+  - repeat constructor.
+  - inversion H as [|? ? Hs Hf]; subst.
+    destruct (a <? y) eqn:E1.
+    + apply Nat.ltb_lt in E1. constructor; auto. constructor; auto.
+      eapply Forall_impl; [|exact Hf]. intros; lia.
+    + destruct (a =? y) eqn:E2; auto.
+      apply Nat.ltb_ge in E1. apply Nat.eqb_neq in E2.
+      constructor; auto. apply Forall_forall. intros z Hz.
+      apply sinsert_In in Hz. destruct Hz as [->|Hz]; [lia|].
+      rewrite Forall_forall in Hf. auto.
+Qed.
+
+Lemma sunion_sorted a b : ssorted a -> ssorted (sunion a b).
+Proof.
+  unfold sunion. revert a. induction b as [|y b IH]; intros a H; simpl; auto.
+  apply IH. apply sinsert_sorted; auto.
+Qed.
+
+Lemma sort_set_sorted l : ssorted (sort_set l).
+Proof. apply sunion_sorted. constructor. Qed.
+
+Lemma ssorted_NoDup l : ssorted l -> NoDup l.
+Proof.
+  induction 1 as [|a l Hs IH Hf]; constructor; auto.
+  intros Hin. rewrite Forall_forall in Hf. apply Hf in Hin. lia.
+Qed.
+
+(* ---------------------------------------------------------------- light cone *)
+Lemma lc_sweep_cons g c S : lc_sweep (g :: c) S = lc_step (lc_sweep c S) g.
+Proof.
+  unfold lc_sweep. simpl. rewrite fold_left_app. reflexivity.
+Qed.
+
+Lemma lc_sweep_nil S : lc_sweep [] S = (sort_set S, []).
+Proof. reflexivity. Qed.
+
+Definition lc_cone c S := fst (lc_sweep c S).
+Definition lc_kept c S := snd (lc_sweep c S).
+
+Lemma lc_cone_cons g c S :
+  lc_cone (g :: c) S =
+  if disjointb (gqs g) (lc_cone c S) then lc_cone c S else sunion (lc_cone c S) (gqs g).
+Proof.
+  unfold lc_cone. rewrite lc_sweep_cons. unfold lc_step.
+  destruct (lc_sweep c S) as [cone kept]; simpl. destruct (disjointb (gqs g) cone); reflexivity.
+Qed.
+
+Lemma lc_kept_cons g c S :
+  lc_kept (g :: c) S =
+  if disjointb (gqs g) (lc_cone c S) then lc_kept c S else g :: lc_kept c S.
+Proof.
+  unfold lc_kept, lc_cone. rewrite lc_sweep_cons. unfold lc_step.
+  destruct (lc_sweep c S) as [cone kept]; simpl. destruct (disjointb (gqs g) cone); reflexivity.
+Qed.
+
+Lemma lc_dropped_cons g c S :
+  lc_dropped (g :: c) S =
+  if disjointb (gqs g) (lc_cone c S) then g :: lc_dropped c S else lc_dropped c S.
+Proof. reflexivity. Qed.
+
+Lemma lc_cone_sorted c S : ssorted (lc_cone c S).
+Proof.
+  induction c as [|g c IH].
+  - apply sort_set_sorted.
+  - rewrite lc_cone_cons. destruct (disjointb _ _); auto. apply sunion_sorted; auto.
+Qed.
+
+Lemma lc_cone_S c S : incl S (lc_cone c S).
+Proof.
+  induction c as [|g c IH]; intros x Hx.
+  - apply sort_set_In; auto.
+  - rewrite lc_cone_cons. destruct (disjointb _ _); auto. apply sunion_In. left; auto.
+Qed.
+
+(* the cone only grows while sweeping backwards *)
+Lemma lc_cone_mono g c S : incl (lc_cone c S) (lc_cone (g :: c) S).
+Proof.
+  intros x Hx. rewrite lc_cone_cons. destruct (disjointb _ _); auto. apply sunion_In; auto.
+Qed.
+
+Lemma lc_kept_in_cone c S : forall g, In g (lc_kept c S) -> incl (gqs g) (lc_cone c S).
+Proof.
+  induction c as [|g0 c IH]; intros g Hg.
+  - inversion Hg.
+  - rewrite lc_kept_cons in Hg. intros x Hx.
+    rewrite lc_cone_cons. destruct (disjointb (gqs g0) (lc_cone c S)) eqn:E.
+    + apply IH in Hg. auto.
+    + destruct Hg as [<-|Hg].
+      * apply sunion_In; auto.
+      * apply sunion_In. left. apply IH in Hg; auto.
+Qed.
+
+Lemma lc_dropped_off_S c S : forall g, In g (lc_dropped c S) -> disjointb (gqs g) S = true.
+Proof.
+  induction c as [|g0 c IH]; intros g Hg.
+  - inversion Hg.
+  - rewrite lc_dropped_cons in Hg. destruct (disjointb (gqs g0) (lc_cone c S)) eqn:E; auto.
+    destruct Hg as [<-|Hg]; auto.
+    eapply disjointb_incl; [apply incl_refl | apply (lc_cone_S c S) | exact E].
+Qed.
+
+Lemma lc_kept_sub c S : forall g, In g (lc_kept c S) -> In g c.
+Proof.
+  induction c as [|g0 c IH]; intros g Hg.
+  - inversion Hg.
+  - rewrite lc_kept_cons in Hg. destruct (disjointb _ _); simpl in *; intuition.
+Qed.
+
+Theorem lc_equiv c S : gteq c (lc_kept c S ++ lc_dropped c S).
+Proof.
+  induction c as [|g c IH].
+  - constructor.
+  - rewrite lc_kept_cons, lc_dropped_cons.
+    destruct (disjointb (gqs g) (lc_cone c S)) eqn:E.
+    + eapply teq_trans; [constructor; exact IH|].
+      apply teq_sym; [apply sindep_sym|].
+      apply teq_pull_front; [apply sindep_sym|].
+      intros x Hx. unfold gindep, sindep.
+      eapply disjointb_incl; [apply incl_refl | apply lc_kept_in_cone; exact Hx | exact E].
+    + simpl. constructor. exact IH.
+Qed.
+
+(* every gate is either kept or dropped, order inside each class is the circuit order *)
+Lemma lc_partition c S : Permutation c (lc_kept c S ++ lc_dropped c S).
+Proof. apply (teq_perm _ _ _ (lc_equiv c S)). Qed.
+
+(* ---------------------------------------------------------------- the re-indexing map *)
+Lemma index_of_Some q l i : index_of q l = Some i -> i < length l /\ nth i l 0 = q.
+Proof.
+  revert i. induction l as [|x l IH]; intros i H; simpl in H.
+  - discriminate.
+  - destruct (x =? q) eqn:E.
+    + inversion H; subst. apply Nat.eqb_eq in E. simpl. split; [lia|auto].
+    + destruct (index_of q l) as [j|]; simpl in H; [|discriminate].
+      inversion H; subst. destruct (IH j eq_refl). simpl. split; [lia|auto].
+Qed.
+
+Lemma index_of_In q l : In q l -> exists i, index_of q l = Some i.
+Proof.
+  induction l as [|x l IH]; intros H; simpl.
+  - inversion H.
+  - destruct (x =? q) eqn:E; eauto.
+    destruct H as [->|H]; [rewrite Nat.eqb_refl in E; discriminate|].
+    destruct (IH H) as [i ->]. simpl. eauto.
+Qed.
+
+Lemma index_of_None q l : index_of q l = None -> ~ In q l.
+Proof.
+  intros H Hin. destruct (index_of_In _ _ Hin) as [i Hi]. congruence.
+Qed.
+
+Lemma index_of_mono l : ssorted l -> forall q1 q2 i1 i2,
+  index_of q1 l = Some i1 -> index_of q2 l = Some i2 -> q1 < q2 -> i1 < i2.
+Proof.
+  induction 1 as [|a l Hs IH Hf]; intros q1 q2 i1 i2 H1 H2 Hlt; simpl in *.
+  - discriminate.
+  - destruct (a =? q1) eqn:E1, (a =? q2) eqn:E2.
+    + apply Nat.eqb_eq in E1, E2. lia.
+    + inversion H1; subst. destruct (index_of q2 l); simpl in H2; [|discriminate].
+      inversion H2; lia.
+    + apply Nat.eqb_eq in E2. subst a.
+      destruct (index_of q1 l) as [j|] eqn:Ej; simpl in H1; [|discriminate].
+      apply index_of_Some in Ej. destruct Ej as [Hj Hn].
+      rewrite Forall_forall in Hf. assert (In q1 l) by (rewrite <- Hn; apply nth_In; auto).
+      apply Hf in H. lia.
+    + destruct (index_of q1 l) as [j1|] eqn:Ej1; simpl in H1; [|discriminate].
+      destruct (index_of q2 l) as [j2|] eqn:Ej2; simpl in H2; [|discriminate].
+      inversion H1; inversion H2; subst. apply -> Nat.succ_lt_mono. eapply IH; eauto.
+Qed.
+
+Lemma map_qubits_Some cone qs : incl qs cone -> exists r, map_qubits cone qs = Some r /\ length r = length qs.
+Proof.
+  induction qs as [|q qs IH]; intros H; simpl.
+  - exists []; auto.
+  - destruct (index_of_In q cone) as [i Hi]; [apply H; left; auto|].
+    destruct IH as [r [Hr Hl]]; [intros x Hx; apply H; right; auto|].
+    unfold lc_map. rewrite Hi, Hr. exists (i :: r). simpl; auto.
+Qed.
+
+(* ---------------------------------------------------------------- the certificate used by the harness *)
+Lemma forallb_In {X} (f : X -> bool) l : forallb f l = true -> forall x, In x l -> f x = true.
+Proof. rewrite forallb_forall. auto. Qed.
+
+Lemma lc_cert_sound c S cone kept_ids :
+  lc_cert_b c S cone kept_ids = true ->
+  let kept := map (gate_of c) kept_ids in
+  let dropped := filter (fun g => negb (memb (gid g) kept_ids)) c in
+  gteq c (kept ++ dropped)
+  /\ (forall g, In g dropped -> disjointb (gqs g) S = true)
+  /\ (forall g, In g kept -> incl (gqs g) cone)
+  /\ incl S cone.
+Proof.
+  unfold lc_cert_b. intros H.
+  apply andb_true_iff in H. destruct H as [H H4].
+  apply andb_true_iff in H. destruct H as [H H3].
+  apply andb_true_iff in H. destruct H as [H1 H2].
+  repeat split.
+  - apply gtrace_equiv_b_sound; auto.
+  - apply forallb_In; auto.
+  - intros g Hg. apply subsetb_spec. revert g Hg. apply forallb_In; auto.
+  - apply subsetb_spec; auto.
+Qed.
+
+(* ---------------------------------------------------------------- consequence for observations on S *)
+Section LightConeSem.
+  Context {St Obs : Type}.
+  Variable act : gate -> St -> St.
+  Variable obs : St -> Obs.           (* e.g. the reduced state on the qubits S *)
+  Variable S : list nat.
+  (* gates with disjoint supports commute *)
+  Hypothesis act_comm : forall a b s, gindep a b = true -> act a (act b s) = act b (act a s).
+  (* an operation that does not touch S does not change the observation on S
+     (for quantum states: Tr_{S^c}[(1 (x) D) rho (1 (x) D)^+] = Tr_{S^c} rho for trace-preserving D) *)
+  Hypothesis obs_outside : forall g s, disjointb (gqs g) S = true -> obs (act g s) = obs s.
+
+  Lemma obs_dropped l s : (forall g, In g l -> disjointb (gqs g) S = true) -> obs (trun act l s) = obs s.
+  Proof.
+    revert s. induction l as [|g l IH]; intros s H; simpl; auto.
+    rewrite IH; [apply obs_outside; apply H; left; auto|]. intros; apply H; right; auto.
+  Qed.
+
+  Lemma light_cone_obs c s : obs (trun act c s) = obs (trun act (lc_kept c S) s).
+  Proof.
+    rewrite (run_respects gindep (sindep_sym gqs) act act_comm _ _ (lc_equiv c S)).
+    rewrite trun_app. apply obs_dropped. apply lc_dropped_off_S.
+  Qed.
+End LightConeSem.
